@@ -1240,6 +1240,10 @@ def run(ctx, report):
     shared_table_rule(R16, [ctx.mod('ia32_sem'), ctx.mod('emul_helper')])
     R11 = report.rule('C04.D11', 'xchg / xadd on two parts of one register (al, ah) write both parts, and on one register named twice write it once with the value the processor writes last (lifted assignments evaluated)', floor=10)
     same_register_parts_rule(ctx, R11, L, sem)
+    R19 = report.rule('C04.D19', 'an assignment to a part of a register (ah, ax, al) keeps the other bits of the register and puts every bit of the value at its place, whatever the '
+                      'kind of the value (ExprAff.__init__ evaluated on slice destinations x value kinds, compared bit by bit; shared with C11.D5): lahf, cbw, movzx r16, setcc ah', floor=30)
+    from .c11 import aff_slice_rule
+    aff_slice_rule(ctx, R19)
     report.analysed['effects_ref_mnemonics'] = len(eff)
 
     # ------------------------------------------------------------------ D4
@@ -1297,6 +1301,8 @@ def run(ctx, report):
 
 
 MUTANTS = [
+    ('aff-slice-compose-spliced-without-offset', 'miasmx/expression/expression.py', "            all_a = sorted([(src, dst.start, dst.stop)] + rest, key=lambda x:x[1])",
+     "            new = list(src.args) if isinstance(src, ExprCompose) and src.get_size() == dst.get_size() else [(src, dst.start, dst.stop)]\n            all_a = sorted(new + rest, key=lambda x:x[1])", 'C04.D19'),
     ('bt-unsigned-offset', 'miasmx/arch/ia32_sem.py', "                          ExprOp('a>>', b, ExprInt_from(a, 3)),", "                          ExprOp('>>', b, ExprInt_from(a, 3)),", 'C04.D13'),
     ('bt-imm-leaves-operand', 'miasmx/arch/ia32_sem.py', "    if not isinstance(a, ExprMem) or isinstance(b, ExprInt):", "    if not isinstance(a, ExprMem):", 'C04.D13'),
     ('shl-flags-unconditional', 'miasmx/arch/ia32_sem.py', "    e += unless_count_0(shifter, update_flag_znp(c) +\n                        [ExprAff(of, ExprOp('^', get_op_msb(c), new_cf))])\n", "    e += update_flag_znp(c) + [ExprAff(of, ExprOp('^', get_op_msb(c), new_cf))]\n", 'C04.D10'),
